@@ -2,7 +2,7 @@
 
 Plain Python: nothing here uses jsonargparse, so importing the module keeps the process pristine."""
 from dataclasses import dataclass, field
-from typing import Optional
+from typing import Any, Dict, Optional
 
 
 class Base:
@@ -100,6 +100,44 @@ class Trn:
     def __init__(self, steps: int = 3, resume: Optional[str] = None):
         self.steps = steps
         self.resume = resume
+
+
+class Tgt:
+    """Base of the link-target classes of world lcs: the SAME init-argument names (`opts`, `k`) are declared with a
+    different kind of type in every subclass (dataclass / Dict / Optional[dict] / Any / absent; int / float /
+    Optional[int]), so what a link into `model.init_args.<name>` has to do depends on the class selected in the
+    config of the call."""
+
+
+class TakesData(Tgt):
+    def __init__(self, opts: Pt, k: int = 0):
+        self.opts = opts
+        self.k = k
+
+
+class TakesDict(Tgt):
+    def __init__(self, opts: Dict[str, int], k: int = 0):
+        self.opts = opts
+        self.k = k
+
+
+class TakesOptMap(Tgt):
+    def __init__(self, opts: Optional[dict] = None, k: float = 0.5):
+        self.opts = opts
+        self.k = k
+
+
+class TakesAny(Tgt):
+    def __init__(self, opts: Any = None, k: Optional[int] = None):
+        self.opts = opts
+        self.k = k
+
+
+class NoOpts(Tgt):
+    """Has no init argument `opts` at all."""
+
+    def __init__(self, k: int = 0):
+        self.k = k
 
 
 class Src:
